@@ -26,6 +26,8 @@ pub enum PointClass {
     Uniform,
     Collinear,
     Rough,
+    /// coordinates a few ulps apart (adjacent floats of the element type)
+    AdjacentFloats,
     Bytes,
 }
 
